@@ -90,6 +90,13 @@ Definition opt_bounds (c : cls) (dim : Z) : list (oname * bound) :=
   | _ => []
   end.
 
+(* default_arg_bounds(): var (0, inf) "oo", len_scale (0, inf) "oo", nugget [0, inf) "co", anis (0, inf) "oo" *)
+Inductive bname := BVar | BLenScale | BNugget | BAnis.
+Definition bname_of_Z (z : Z) : bname :=
+  if (z =? 0)%Z then BVar else if (z =? 1)%Z then BLenScale else if (z =? 2)%Z then BNugget else BAnis.
+Definition base_bound (b : bname) : bound :=
+  match b with BNugget => mkB zero None true false | _ => mkB zero None false false end.
+
 (* default_opt_arg() *)
 Definition opt_default (c : cls) (dim : Z) : list (oname * T) :=
   match c with
